@@ -207,6 +207,8 @@ func (pmt *Payment) Calculate() error {
 	// Try to set Regime if not already prepared from the supplier's tax ID
 	if pmt.Regime.IsEmpty() {
 		pmt.SetRegime(partyTaxCountry(pmt.Supplier))
+	} else {
+		pmt.NormalizeRegime()
 	}
 	pmt.Normalize(pmt.normalizers())
 	return pmt.calculate()
